@@ -77,12 +77,14 @@ class Check:
         shutil.rmtree(self.scratch, ignore_errors=True)
 
     # ------------------------------------------------------------ engine
-    def engine(self, dir, patterns, overlay, jobs, ctx=None, workers=16, timeout_ms=None, record=0):
+    def engine(self, dir, patterns, overlay, jobs, ctx=None, workers=16, timeout_ms=None, record=0, timeout_s=None):
         """Run gosym; returns the parsed output.  ctx: dict merged into every
         job's replay context."""
         self.engine_runs += 1
         if timeout_ms is None:
             timeout_ms = 60000 if self.tier == 'quick' else 300000
+        for j in jobs:
+            j.setdefault('opt', {}).setdefault('max_wall_s', 150 if self.tier == 'quick' else 3600)
         spec = {'dir': dir, 'patterns': patterns, 'overlay': overlay, 'jobs': jobs, 'workers': workers,
                 'query_timeout_ms': timeout_ms, 'record': record,
                 'out': os.path.join(self.scratch, 'out%d.json' % self.engine_runs)}
@@ -90,7 +92,12 @@ class Check:
             spec['transcript_dir'] = os.path.join(self.scratch, 'tr%d' % self.engine_runs)
         sp = os.path.join(self.scratch, 'spec%d.json' % self.engine_runs)
         json.dump(spec, open(sp, 'w'))
-        p = subprocess.run([GOSYM, sp], env=GOENV, stdout=subprocess.PIPE, stderr=subprocess.STDOUT, text=True)
+        try:
+            p = subprocess.run([GOSYM, sp], env=GOENV, stdout=subprocess.PIPE, stderr=subprocess.STDOUT, text=True,
+                               timeout=timeout_s or (1500 if self.tier == 'quick' else 6 * 3600))
+        except subprocess.TimeoutExpired:
+            self.inconclusive.append('engine run exceeded its wall-clock budget')
+            return {'jobs': [], 'load_errors': {}, 'skipped': {}}
         if p.returncode != 0 or not os.path.exists(spec['out']):
             log(p.stdout[-4000:])
             self.inconclusive.append('engine failed (exit %d)' % p.returncode)
@@ -104,8 +111,9 @@ class Check:
             c = dict(ctx or {})
             c.update({'dir': dir, 'overlay': overlay})
             self.jobs.append((byname[jr['name']], jr, c))
-        for name, why in (out.get('skipped') or {}).items():
-            self.inconclusive.append('job %s skipped: %s' % (name, why))
+        for name, why in list((out.get('skipped') or {}).items())[:3]:
+            errs = [e for v in (out.get('load_errors') or {}).values() for e in v][:3]
+            self.inconclusive.append('job %s skipped: %s %s' % (name, why, errs))
         if record and os.path.isdir(spec.get('transcript_dir', '')):
             self.cross_check(spec['transcript_dir'])
         return out
@@ -214,6 +222,9 @@ class Check:
                     continue
                 seen.add(sig)
                 if len(seen) > 6:
+                    continue
+                if len(self.violations) >= 5:
+                    self.extra['further_counterexamples_not_replayed'] = self.extra.get('further_counterexamples_not_replayed', 0) + 1
                     continue
                 rp = self.write_replay(job, v, ctx)
                 ok, out = self.native_replay(rp, ctx)
@@ -369,19 +380,19 @@ def replay_repo_pkg(check, body, ctx, replay_path):
     d = tempfile.mkdtemp(prefix='replay.', dir=check.scratch)
     repl = {}
     for i, h in enumerate(ctx['harness_files']):
-        repl[os.path.join(REPO, rel, 'zz_verif_h%d.go' % i)] = h
+        repl[os.path.normpath(os.path.join(REPO, rel, 'zz_verif_h%d.go' % i))] = h
     for p in _intr_native(pkgname, d):
-        repl[os.path.join(REPO, rel, os.path.basename(p))] = p
+        repl[os.path.normpath(os.path.join(REPO, rel, os.path.basename(p)))] = p
     for i, h in enumerate(ctx.get('native_files', [])):
-        repl[os.path.join(REPO, rel, 'zz_verif_n%d.go' % i)] = h
+        repl[os.path.normpath(os.path.join(REPO, rel, 'zz_verif_n%d.go' % i))] = h
     tf = os.path.join(d, 'zz_verif_replay_test.go')
     _test_file(pkgname, body['func'], body['args'], tf)
-    repl[os.path.join(REPO, rel, 'zz_verif_replay_test.go')] = tf
+    repl[os.path.normpath(os.path.join(REPO, rel, 'zz_verif_replay_test.go'))] = tf
     ov = os.path.join(d, 'overlay.json')
     json.dump({'Replace': repl}, open(ov, 'w'))
     env = dict(GOENV)
     env['VERIF_REPLAY'] = replay_path
-    rc, out = sh(['go', 'test', '-vet=off', '-count=1', '-run', 'TestVerifReplay', '-overlay', ov, './' + rel], cwd=REPO, env=env, timeout=600)
+    rc, out = sh(['go', 'test', '-vet=off', '-count=1', '-run', 'TestVerifReplay', '-overlay', ov, './' + rel if rel != '.' else '.'], cwd=REPO, env=env, timeout=600)
     return _judge(body, rc, out)
 
 
@@ -436,8 +447,8 @@ def repo_overlay(check, rel, pkgname, harness_files, native_files=()):
     replay context for it."""
     ov = {}
     for i, h in enumerate(harness_files):
-        ov[os.path.join(REPO, rel, 'zz_verif_h%d.go' % i)] = h
-    ov[os.path.join(REPO, rel, 'zz_verif_i.go')] = intr_sym(pkgname, check.scratch)
+        ov[os.path.normpath(os.path.join(REPO, rel, 'zz_verif_h%d.go' % i))] = h
+    ov[os.path.normpath(os.path.join(REPO, rel, 'zz_verif_i.go'))] = intr_sym(pkgname, check.scratch)
     ctx = {'replay': 'repo_pkg', 'rel': rel, 'pkgname': pkgname, 'harness_files': list(harness_files),
            'native_files': list(native_files)}
     return ov, ctx
